@@ -175,9 +175,10 @@ def sibling_unit_cost(R, rep):
     ab, au = acc
     bnb = R.leg("BedAndBreakfast")[0]
     found = []
-    for i, t in bnb.calls():
-        cb = F.bodies.get(t["callee"])
-        if cb is None:
+    region_ids = [t["callee"] for i, t in bnb.calls()] + [bid for bid in R.region(bnb).bodies if bid != bnb.id]
+    for cid in dict.fromkeys(region_ids):
+        cb = F.bodies.get(cid)
+        if cb is None or cb.kind == "closure":
             continue
         s = summary(F, cb.id, 1)
         if s is None:
@@ -234,7 +235,7 @@ def offsets_prov(R, rep):
     rg = R.region(d)
     for it in rg.calls(lambda c: c.endswith("AcquisitionLedger::add_acquisition")):
         b, t, tb = it["body"], it["term"], it["tb"]
-        tb2 = R.terms(b, 2)     # accessors such as `timeline.cost_offset(idx)` are seen through
+        tb2 = Terms(R.F, b, inline_depth=2, stops=(pre.id,))     # accessors such as `timeline.cost_offset(idx)` are seen through; the pre-pass stays a call
         args = [tb.operand(a) for a in t["args"][:-1]] + [tb2.operand(t["args"][-1])]
         idx = args[1]
         idx2 = tb2.operand(t["args"][1])
